@@ -157,10 +157,14 @@ fn random_case(bytes: &[u8]) -> SetCase {
     }
     let mut fns_all = standard_fns();
     fns_all.extend(fns);
-    let inputs = vec![match d.below(4) {
-        0 => gen::gen_value(&mut d, 2),
-        _ => typed_facts(&mut d, 1),
-    }];
+    // one to three different inputs, evaluated one after the other by the same ruleset instance
+    let ninputs = 1 + d.below(3);
+    let inputs: Vec<Value> = (0..ninputs)
+        .map(|k| match d.below(4) {
+            0 => gen::gen_value(&mut d, 2),
+            _ => typed_facts(&mut d, k as i128 + 1),
+        })
+        .collect();
     SetCase { spec: SetSpec { rules, fns: fns_all, symbols: standard_symbols(), suspend: 0 }, inputs }
 }
 
@@ -170,7 +174,7 @@ pub fn run(ctx: &Ctx) {
          probes and a symbol, and one failing with each error class: type mismatch, division by zero, invalid cast, out of bounds, \
          unknown reference, invalid symbol, unknown function, user-function failure, and four out-of-range results: Int +, dec(2^96), DateTime + Duration, int(f1e300)), i.e. every subset and \
          position of failing rules (exhaustive); (2) random rulesets of 0-8 rules mixing those kinds, call-heavy rules and random \
-         typed trees, with random function tables (failure sets), on inputs of every shape; (3) serde inputs T (all data-model kinds, \
+         typed trees, with random function tables (failure sets), on one to three different inputs of every shape evaluated consecutively by the same ruleset instance; (3) serde inputs T (all data-model kinds, \
          incl. ones whose Serialize fails) for evaluate(&T). Oracle: exactly one outcome per rule, in order, carrying that rule \
          (name and full equality), with the value the reference evaluator gives for that rule on its own; evaluate(&T) == \
          evaluate_value(&serialize(T)) and fails as a whole iff serialization does. Non-trivial: >= 2 rules with a failing rule that \
